@@ -1046,54 +1046,56 @@ func runC14(c *Ctx, out string) {
 	var rows []c14row
 	cc := newCtx("C14", c.tier, c.seed)
 	cc.final = true
-	type job struct{ f, n int }
-	var jobs []job
-	for fi := range families {
-		for _, n := range ns {
-			jobs = append(jobs, job{fi, n})
-		}
-	}
-	res := make([]c14row, len(jobs))
+	// one worker per family walks its sizes in increasing order and stops at the first size that exceeds a budget
+	// (the larger ones would only take longer to say the same); families run six at a time
+	res := make([][]c14row, len(families))
 	var wg sync.WaitGroup
-	sem := make(chan struct{}, 4)
-	for ji, j := range jobs {
+	sem := make(chan struct{}, 6)
+	for fi := range families {
 		wg.Add(1)
-		go func(ji int, j job) {
+		go func(fi int) {
 			defer wg.Done()
 			sem <- struct{}{}
 			defer func() { <-sem }()
-			cmd := exec.Command(self, "c14child", strconv.Itoa(j.f), strconv.Itoa(j.n))
-			var ob bytes.Buffer
-			cmd.Stdout = &ob
-			must(cmd.Start())
-			donec := make(chan error, 1)
-			go func() { donec <- cmd.Wait() }()
-			row := c14row{Family: families[j.f].name, N: j.n}
-			e, a := families[j.f].mk(j.n)
-			row.Size = len(e)
-			for _, x := range a {
-				row.Size += len(x)
-			}
-			select {
-			case <-donec:
-				var okb, e1, e2 string
-				var nl int
-				if _, err := fmt.Sscanf(ob.String(), "OK %d %d %d %d %d %s %s %d %s", &row.Size, &row.SatAlloc, &row.SatNs, &row.ExtAlloc, &row.ExtNs, &okb, &e1, &nl, &e2); err == nil {
-					row.Status = "ok"
-				} else if strings.Contains(ob.String(), "MEMLIMIT") {
-					row.Status = "memory budget of 1.5 GB exceeded"
-				} else {
-					row.Status = "child failed: " + strings.TrimSpace(ob.String())
+			for _, n := range ns {
+				cmd := exec.Command(self, "c14child", strconv.Itoa(fi), strconv.Itoa(n))
+				var ob bytes.Buffer
+				cmd.Stdout = &ob
+				must(cmd.Start())
+				donec := make(chan error, 1)
+				go func() { donec <- cmd.Wait() }()
+				row := c14row{Family: families[fi].name, N: n}
+				e, a := families[fi].mk(n)
+				row.Size = len(e)
+				for _, x := range a {
+					row.Size += len(x)
 				}
-			case <-time.After(60 * time.Second):
-				cmd.Process.Kill()
-				row.Status = "time budget of 60 s exceeded"
+				select {
+				case <-donec:
+					var okb, e1, e2 string
+					var nl int
+					if _, err := fmt.Sscanf(ob.String(), "OK %d %d %d %d %d %s %s %d %s", &row.Size, &row.SatAlloc, &row.SatNs, &row.ExtAlloc, &row.ExtNs, &okb, &e1, &nl, &e2); err == nil {
+						row.Status = "ok"
+					} else if strings.Contains(ob.String(), "MEMLIMIT") {
+						row.Status = "memory budget of 1.5 GB exceeded"
+					} else {
+						row.Status = "child failed: " + strings.TrimSpace(ob.String())
+					}
+				case <-time.After(60 * time.Second):
+					cmd.Process.Kill()
+					row.Status = "time budget of 60 s exceeded"
+				}
+				res[fi] = append(res[fi], row)
+				if row.Status != "ok" {
+					break
+				}
 			}
-			res[ji] = row
-		}(ji, j)
+		}(fi)
 	}
 	wg.Wait()
-	rows = res
+	for _, rs := range res {
+		rows = append(rows, rs...)
+	}
 	// verdicts
 	byFam := map[string][]c14row{}
 	for _, r := range rows {
